@@ -149,7 +149,7 @@ def fmtFull (r : SolveResult Float) (perm : Array Nat) : String :=
   s!"status={sol.status.toNat} iterations={sol.iterations} " ++
   s!"x={fmtFloats sol.x} s={fmtFloats sol.s} z={fmtFloats sol.z} " ++
   s!"obj={fmtOptF sol.obj_val} objd={fmtOptF sol.obj_val_dual} rp={fmtOptF sol.r_prim} rd={fmtOptF sol.r_dual} " ++
-  s!"imu={fmtFloat r.S.infoMu} isig={fmtFloat r.S.infoSigma} istep={fmtFloat r.S.infoStepLength} " ++
+  s!"imu={fmtFloat r.S.st.infoMu} isig={fmtFloat r.S.st.infoSigma} istep={fmtFloat r.S.st.infoStepLength} " ++
   s!"perm={fmtNats perm} prov={rb} rb={rb}"
 
 def handle (ch : String) (kv : KV) : String :=
@@ -157,18 +157,18 @@ def handle (ch : String) (kv : KV) : String :=
   | "solve.setup" =>
     match parseRequest kv with
     | none => "bad-request"
-    | some r => fmtME (fun S => fmtSetup S r.perm) (SolverSt.new r.P r.q r.A r.b r.cones r.st r.perm)
+    | some r => fmtME (fun S => fmtSetup S.st r.perm) (Solver.new r.P r.q r.A r.b r.cones r.st r.perm)
   | "solve.init" =>
     match parseRequest kv with
     | none => "bad-request"
     | some r => fmtME fmtInit (do
-        let S ← SolverSt.new r.P r.q r.A r.b r.cones r.st r.perm
-        S.defaultStart r.st)
+        let S ← Solver.new r.P r.q r.A r.b r.cones r.st r.perm
+        S.st.defaultStart r.st)
   | "solve.full" =>
     match parseRequest kv with
     | none => "bad-request"
     | some r => fmtME (fun res => fmtFull res r.perm) (do
-        let S ← SolverSt.new r.P r.q r.A r.b r.cones r.st r.perm
+        let S ← Solver.new r.P r.q r.A r.b r.cones r.st r.perm
         S.solve r.st)
   | _ => "unknown-channel"
 
